@@ -2,10 +2,12 @@ package evsim
 
 import (
 	"bytes"
+	"encoding/hex"
 	"encoding/json"
 	"fmt"
 	"math/rand/v2"
 	"sort"
+	"strconv"
 	"strings"
 
 	sdkmath "cosmossdk.io/math"
@@ -18,6 +20,7 @@ import (
 	govv1 "github.com/cosmos/cosmos-sdk/x/gov/types/v1"
 	"github.com/cosmos/gogoproto/proto"
 	"github.com/ethereum/go-ethereum/common"
+	"github.com/ethereum/go-ethereum/core/vm"
 	ethcrypto "github.com/ethereum/go-ethereum/crypto"
 )
 
@@ -210,6 +213,50 @@ func c17AfterBlock(w *World, rec *BlockRecord, txs []*TxInfo) {
 		r.Violate("C17", "protocol_version_decreased", nil, "protocol version %d -> %d", m.PrevVer, params.ProtocolVersion)
 	}
 	r.Probe("protocol_version_raised", params.ProtocolVersion > m.PrevVer)
+	// --- "governance-controlled": a passed proposal that carries a parameter update leaves exactly its parameters
+	var lastUp *cpctypes.MsgUpdateParams
+	var lastID uint64
+	for _, ev := range rec.Res.Events {
+		if ev.Type != "active_proposal" {
+			continue
+		}
+		res, _ := attr(ev, "proposal_result")
+		idS, _ := attr(ev, "proposal_id")
+		id, err := strconv.ParseUint(idS, 10, 64)
+		if res != "proposal_passed" || err != nil || w.C.Halted {
+			continue
+		}
+		prop, err := w.C.Node.App.GovKeeper.Proposals.Get(w.ctx(), id)
+		if err != nil {
+			continue
+		}
+		msgs, err := prop.GetMsgs()
+		if err != nil {
+			continue
+		}
+		for _, msg := range msgs {
+			if up, ok := msg.(*cpctypes.MsgUpdateParams); ok {
+				lastUp, lastID = up, id // several proposals in one end blocker: the last one executed stands
+			}
+		}
+	}
+	if up, id := lastUp, lastID; up != nil {
+		{
+			r.Probe("cpc_params_proposal_passed", true)
+			r.Probe("cpc_params_proposal_empties_whitelist", len(up.NewParams.WhitelistedDeployers) == 0 && len(m.Whitelist) > 0)
+			want := append([]string(nil), up.NewParams.WhitelistedDeployers...)
+			got := append([]string(nil), params.WhitelistedDeployers...)
+			sort.Strings(want)
+			sort.Strings(got)
+			if strings.Join(want, ",") != strings.Join(got, ",") {
+				r.Violate("C17", "whitelist_differs_from_passed_proposal", map[string]string{"proposal_whitelist_empty": fmt.Sprint(len(want) == 0)},
+					"proposal %d passed with whitelist %v, the stored whitelist is %v", id, want, got)
+			}
+			if params.ProtocolVersion != up.NewParams.ProtocolVersion {
+				r.Violate("C17", "protocol_version_differs_from_passed_proposal", nil, "proposal %d passed with protocol version %d, stored %d", id, up.NewParams.ProtocolVersion, params.ProtocolVersion)
+			}
+		}
+	}
 	{
 		wl := map[string]bool{}
 		for _, a := range params.WhitelistedDeployers {
@@ -247,6 +294,45 @@ func c17AfterBlock(w *World, rec *BlockRecord, txs []*TxInfo) {
 		}
 		c17Exposure(w, rec, metas)
 	}
+}
+
+// TmplFwd: a contract that ignores all but the first byte of its call data: k = calldata[0] (0 without call data),
+// target = storage[k], selector = bech32AccountAddrPrefix() for k == 1 and name() otherwise. Returns
+// word0 = success flag of the inner CALL followed by its return data. It lets a transaction whose own call data is
+// shorter than a method selector reach a precompile.
+func TmplFwd() []byte {
+	a := NewAsm()
+	a.Push(0).Op(vm.CALLDATALOAD).Push(0xf8).Op(vm.SHR) // k
+	a.Op(vm.DUP1, vm.SLOAD, vm.SWAP1)                  // target, k
+	a.Push(1).Op(vm.EQ).PushLabel("b32").Op(vm.JUMPI)
+	a.Push(Selector("name()")).PushLabel("go").Op(vm.JUMP)
+	a.Label("b32")
+	a.Push(Selector("bech32AccountAddrPrefix()"))
+	a.Label("go") // target, selector
+	a.Push(0xe0).Op(vm.SHL).Push(0).Op(vm.MSTORE) // mem[0:4] = selector ; stack: target
+	a.Push(0).Push(0).Push(4).Push(0).Push(0).Op(vm.DUP6, vm.GAS, vm.CALL)
+	a.Push(0).Op(vm.MSTORE) // mem[0] = success
+	a.Op(vm.RETURNDATASIZE).Push(0).Push(32).Op(vm.RETURNDATACOPY)
+	a.Push(32).Op(vm.RETURNDATASIZE, vm.ADD).Push(0).Op(vm.RETURN)
+	return a.Bytes()
+}
+
+// fwdTargets: what the forwarder's storage slots point to (fixed at genesis; the addresses of future ERC-20
+// precompiles are a function of the module account's sequence).
+func fwdTargets() []common.Address {
+	out := []common.Address{cpctypes.CpcStakingFixedAddress, cpctypes.CpcBech32FixedAddress}
+	for n := uint64(0); n < 10; n++ {
+		out = append(out, ethcrypto.CreateAddress(cpctypes.CpcModuleAddress, n))
+	}
+	return out
+}
+
+func fwdStorage() map[string]string {
+	st := map[string]string{}
+	for k, a := range fwdTargets() {
+		st[fmt.Sprintf("0x%064x", k)] = "0x" + hex.EncodeToString(common.LeftPadBytes(a.Bytes(), 32))
+	}
+	return st
 }
 
 // c17Exposure: exactly the registered enabled contracts answer from the EVM (query mode; deliver mode is
@@ -289,7 +375,45 @@ func c17Exposure(w *World, rec *BlockRecord, metas map[common.Address]regEntry) 
 			r.Violate("C17", "exposure", map[string]string{"mode": "query", "contract": state, "callable": fmt.Sprint(callable)},
 				"address %s is %s but answering a call from the EVM = %v (returned %d bytes)", a.Hex(), state, callable, len(ret))
 		}
+		// a call without call data: a wired precompile refuses it (no selector), anything else is an empty account
+		_, okEmpty := w.viewCall(a, nil)
+		// (a disabled one stays wired and refuses every call: nothing to tell apart there)
+		if refuses := !okEmpty; refuses != want && !(registered && e.Disabled) {
+			r.Violate("C17", "exposure", map[string]string{"mode": "query_without_call_data", "contract": stateOf(registered, e.Disabled), "callable": fmt.Sprint(refuses)},
+				"address %s is %s but a call without call data is refused = %v", a.Hex(), stateOf(registered, e.Disabled), refuses)
+		}
 	}
+	// the same through a contract that is itself called with less than four bytes of call data
+	if fwd, ok := w.Labels["fwd"]; ok {
+		for k, a := range fwdTargets() {
+			e, registered := metas[a]
+			data := []byte{byte(k)}
+			if k == 0 {
+				data = nil
+			}
+			ret, ok := w.viewCall(fwd, data)
+			if !ok || len(ret) < 32 {
+				continue
+			}
+			callable := ret[31] == 1 && len(ret) >= 32+64
+			want := registered && !e.Disabled
+			r.Count("o:exposure_probes_short_outer_data")
+			if callable != want {
+				r.Violate("C17", "exposure", map[string]string{"mode": "query_short_outer_data", "contract": stateOf(registered, e.Disabled), "callable": fmt.Sprint(callable)},
+					"address %s is %s but reached from a call whose own call data has %d bytes it answers = %v", a.Hex(), stateOf(registered, e.Disabled), len(data), callable)
+			}
+		}
+	}
+}
+
+func stateOf(registered, disabled bool) string {
+	switch {
+	case !registered:
+		return "unregistered"
+	case disabled:
+		return "registered_disabled"
+	}
+	return "registered_enabled"
 }
 
 // c17DeliverProbe: delivered view calls to precompile targets: answered iff registered and enabled.
@@ -297,6 +421,25 @@ func c17DeliverProbe(w *World, rec *BlockRecord, txs []*TxInfo) {
 	r := w.R
 	for _, t := range txs {
 		if t.EthTx == nil || w.ByHash == nil || t.Obs == nil {
+			continue
+		}
+		if fwd, ok := w.Labels["fwd"]; ok && t.EthTx.To() != nil && *t.EthTx.To() == fwd && len(t.EthTx.Data()) < 4 && t.HasReceipt && !t.Rc.HasErr {
+			k := 0
+			if len(t.EthTx.Data()) > 0 {
+				k = int(t.EthTx.Data()[0])
+			}
+			if resp := DecodeDeliveredEth(t.Res); resp != nil && len(resp.Ret) >= 32 && k < len(fwdTargets()) {
+				a := fwdTargets()[k]
+				metas, _, _ := registryOf(t.Obs.Before)
+				e, registered := metas[a]
+				callable := resp.Ret[31] == 1 && len(resp.Ret) >= 32+64
+				r.At(rec.Height, t.Pos)
+				r.Count("o:exposure_probes_deliver_short_outer_data")
+				if want := registered && !e.Disabled; callable != want {
+					r.Violate("C17", "exposure", map[string]string{"mode": "deliver_short_outer_data", "contract": stateOf(registered, e.Disabled), "callable": fmt.Sprint(callable)},
+						"delivered tx with %d bytes of call data reaching %s (%s) through a contract: answered = %v", len(t.EthTx.Data()), a.Hex(), stateOf(registered, e.Disabled), callable)
+				}
+			}
 			continue
 		}
 		s := w.ByHash[t.EthTx.Hash()]
@@ -441,7 +584,9 @@ func genC17(rng *rand.Rand, seed uint64, tier string) *Script {
 					m = "bech32AccountAddrPrefix"
 				}
 				ops = append(ops, Op{K: "pc", W: rng.IntN(g.Wallets), To: tgt, Mut: m})
-			case k < 90:
+			case k < 86: // a tx with less than four bytes of call data that reaches a precompile through a contract
+				ops = append(ops, Op{K: "eth", W: rng.IntN(g.Wallets), To: "c:fwd", Data: pick(rng, "", "00", "01", "02", "03", "0101"), Gas: "i+300000", Typ: pick(rng, 0, 2), Price: "b+1", Tip: "1"})
+			case k < 92:
 				ops = append(ops, genErc20AnyOp(rng, &g, 2, true))
 			default:
 				ops = append(ops, genMixedTx(rng, &g))
